@@ -22,6 +22,18 @@ CHECKS = {
         technique="TLA+ spec (MHStep) with IEEE operator override + TLC enumeration + trace validation with a hidden variable",
         ref="DESIGN.md section 5, C05",
     ),
+    "C11": dict(
+        text="The dual-averaging recurrence (init / step / finalize) is a TLA+ operator over IEEE doubles; TLC checks "
+             "monotonicity on a grid and, as a product construction over whole epochs, that the copy that saw the "
+             "pointwise higher acceptance sequence never has the smaller step size. The code is bound by trace "
+             "validation with one-step consistency: direct da_* calls on random and exhaustively enumerated "
+             "acceptance sequences, and every protocol call real kernels (RW, MH tuning on/off, IWLS; HMC, NUTS in "
+             "thorough) receive in real engine runs, recorded by a wrapping probe with the tuning state before and "
+             "after; adaptive transitions must equal DAStep, all other transitions must leave it bit-identical.",
+        note="float32 code vs double spec compared per step (rtol 3e-4, atol 3e-6); blackjax acceptance rates taken as logged. " + TRUST,
+        technique="TLA+ spec (DualAveraging) with IEEE operator override + TLC + trace validation of direct calls and wrapped real kernels",
+        ref="DESIGN.md section 5, C11",
+    ),
     "C16": dict(
         text="Design theorem by exhaustive TLC (every reachable EpochManager state x every candidate config: "
              "code-shaped acceptance rule <=> validity predicate written from the property; every stan_epochs "
